@@ -72,7 +72,7 @@ def _prune_cache(keep):
         return
     ents = [e for e in ents if os.path.isdir(e)]
     ents.sort(key=lambda e: os.stat(e).st_mtime, reverse=True)
-    for e in ents[6:]:
+    for e in ents[14:]:
         if os.path.basename(e) != keep:
             shutil.rmtree(e, ignore_errors=True)
 
